@@ -109,6 +109,10 @@ def units(tier, seed):
     from ..scale import big_population_worlds, high_dimension_worlds, long_local_search_worlds
 
     descs += big_population_worlds(tier, seed) + high_dimension_worlds(tier, seed) + long_local_search_worlds(tier, seed)[:1]
+    # memoising problems in long runs: a converged population whose members differ in the last digits only must still get its own values
+    for k6, eng in enumerate([("DE",), ("DE", "DE"), ("SHADE",), ("SEA", "DE")]):
+        descs.append(dict(engines=list(eng), gens=4, box=("B_dec", "B_asym")[k6 % 2], obj="sphere_in", maximize=bool(k6 % 2), Mh=45, seed=s + k6, use_cache=True, pop=6,
+                          sprout={"kind": "simple", "L": 1}, lsc=[None] * len(eng), scale="history"))
     us = [{"kind": "run", "descs": c} for c in chunks(descs, 25)]
     rshapes = rep_shapes() if tier == "thorough" else rep_shapes()[14:]
     for k, eng in enumerate(rshapes):
